@@ -205,7 +205,7 @@ class World:
         if self.env and self.env[0][0] <= self.now:
             self.apply_due_env()
         if cur is self.main and self.on_main_seam is not None:
-            self.on_main_seam(name)
+            self.on_main_seam(name, False)
         self.yield_point()
 
     def time(self):
@@ -298,7 +298,7 @@ class World:
             if self.aborting:
                 raise SimAbort()
             if cur is self.main and self.on_main_seam is not None:
-                self.on_main_seam(what)
+                self.on_main_seam(what, not pred())
             if pred():
                 return True
             if deadline is not None and self.now >= deadline:
